@@ -35,6 +35,7 @@ def run(repo, chk):
     rule_prepare(repo, chk)
     rule_response(repo, chk)
     rule_stream(repo, chk)
+    rule_filegen(repo, chk)
 
 
 def rule_prepare(repo, chk):
@@ -302,3 +303,37 @@ def rule_stream(repo, chk):
             lambda tt, pol: (pol == 'F' and src(tt) == 'res.body') or (pol == 'T' and src(tt) == 'res.done')), exc=('StopIteration',))
         chk.ob('c', f.ref, 'after writing a chunk the next chunk (or the end marker) is requested', p is None and bool(streams), loc(f, n.ast),
                path=pat.path_lines(p, n) if p else None, discr='next-requested')
+
+
+def rule_filegen(repo, chk):
+    """Bodies with a read() method are streamed through file_generator: it must read until read() returns nothing (a short read is not the end:
+    pipes, sockets and raw streams return what is available) and yield everything it read."""
+    chk.rule('C15.e', 'file_generator yields every chunk it reads and stops only when read() returns an empty chunk')
+    f = repo.func(WEB_WRAPPERS, 'file_generator')
+    chk.touch(f)
+    g = f.cfg()
+    inp = f.params[0]
+    reads = [n for n in g.nodes if n.kind == 'stmt' and isinstance(n.ast, ast.Assign) and any(src(c.func) == f'{inp}.read' for c in calls_in(n.ast) if isinstance(c.func, ast.Attribute))]
+    need(reads, 'C15.e: file_generator never reads')
+    cv = src(reads[0].ast.targets[0])
+    loops = [n for n in g.nodes if n.kind == 'join' and isinstance(n.ast, ast.While)]
+    ok_loop = bool(loops) and all(src(lp.ast.test) in (cv, f'len({cv})', f'len({cv}) > 0', f'{cv} != b\'\'') for lp in loops)
+    chk.ob('e', f.ref, 'the read loop runs while the last chunk is non-empty (not while it is full)', ok_loop, loc(f, (loops[0].ast if loops else f.node)),
+           detail='; '.join('while ' + src(lp.ast.test) for lp in loops), discr='until-empty')
+    ys = [n for n in g.nodes if n.kind == 'stmt' and n.has_yield() and cv in Q.names_used(n.ast)]
+    bad = None
+    for r in reads:
+        # every chunk read is yielded unless it is empty: from the read, the next read or the exit is reached only through a yield or the empty test
+        p = Q.escapes(g, [r], lambda n: n in ys, extra_exit=lambda n: n in reads and n is not r,
+                      avoid_edge=pat.test_edge(lambda tt, pol: pol == 'F' and src(tt) in (cv, f'len({cv})')))
+        if p is not None:
+            bad = p
+    chk.ob('e', f.ref, 'every non-empty chunk that was read is yielded', bad is None and bool(ys), loc(f, f.node), path=pat.path_lines(bad) if bad else None,
+           discr='all-yielded')
+    sizes = [c for n in reads for c in calls_in(n.ast) if isinstance(c.func, ast.Attribute) and c.func.attr == 'read']
+    chk.ob('e', f.ref, 'reads are bounded by the chunk size', all(c.args and src(c.args[0]) == f.params[1] for c in sizes), loc(f, f.node), discr='bounded-reads',
+           nontrivial=False)
+    b = repo.func(WEB_WRAPPERS, 'Body.__set__')
+    chk.touch(b)
+    ok = any(isinstance(n, ast.Assign) and isinstance(n.value, ast.Call) and call_name(n.value) == 'file_generator' for n in walk_no_defs(b.node))
+    chk.ob('e', b.ref, 'file-like bodies are streamed through file_generator', ok, loc(b, b.node), discr='filelike-streamed', nontrivial=False)
